@@ -514,6 +514,10 @@ class RxnWorld(BaseWorld):
         # and "clearly negative" either outcome is accepted (rounding of the harness' own arithmetic)
         infeasible = bool((want < -1e-7 * scale).any())
         feasible = bool(want[want < 0].sum() > -1e-13)
+        # a species consumed down to (almost) exactly zero: rounding in the library's own arithmetic (done in
+        # the reaction's basis, kg for 'wt') decides on which side of its -1e-12 threshold it lands
+        if bool(((want < 1e-9 * scale) & (want < np.asarray(m0) - 1e-12)).any()):
+            feasible = False
         if exc is not None:
             if plan is not None and plan['fired']:
                 self.stats['failed_by_fault'] += 1
@@ -606,6 +610,8 @@ class RxnWorld(BaseWorld):
         scale = max(1.0, float(np.abs(vals).max()))
         infeasible = bool((want < -1e-7 * scale).any())
         feasible = bool(want[want < 0].sum() > -1e-13)
+        if bool(((want < 1e-9 * scale) & (want < vals - 1e-12)).any()):
+            feasible = False
         try:
             obj(arr)
             exc = None
